@@ -55,11 +55,14 @@ func genKeys(rng *vrt.Rand, n int) [][]byte {
 			// binary key with varint-looking bytes
 			k = []byte{0x80, 0xff, byte(i), 0x01, 0x00, 0x96}
 		case rng.Chance(0.04):
-			// a key that extends an earlier key (prefix of another), by a zero byte or a digit
+			// a key that extends an earlier key (prefix of another), by the smallest usable byte, a digit or 0xff.
+			// No key ends in a zero byte: a tombstone or an empty-valued record then ends in it, and a store through
+			// a memory mapping is recovered by diffing against the zero model, to which a trailing zero is invisible
+			// (the same reason values never end in one); zero bytes inside keys stay covered.
 			if i > 0 {
-				k = append(append([]byte{}, keys[rng.Intn(i)]...), []byte{0x00, '0', 0xff}[rng.Intn(3)])
+				k = append(append([]byte{}, keys[rng.Intn(i)]...), []byte{0x01, '0', 0xff}[rng.Intn(3)])
 			} else {
-				k = []byte{0x00}
+				k = []byte{0x00, 0x01}
 			}
 		case rng.Chance(0.01):
 			// a key longer than the two-byte varint range
@@ -1464,4 +1467,13 @@ func mergeRace(c *Case, rng *vrt.Rand, modeW ...int) {
 		m = append(m, Op{K: "yield"})
 	}
 	c.Clients = append(c.Clients, append(m, Op{K: "merge"}))
+}
+
+func init() {
+	// C18(b): the hint file of a merge that ran next to writers
+	withConcArm("C18", 0.2, func(c *Case, rng *vrt.Rand, tier string) {
+		c.Cfg = concConfig(rng)
+		mergeRace(c, rng)
+		c.Cfg.IO = byte(rng.Pick([]int{3, 1}))
+	})
 }
